@@ -36,6 +36,7 @@ import (
 	"runtime"
 	"runtime/debug"
 	"sort"
+	"strconv"
 	"strings"
 	"sync"
 	"sync/atomic"
@@ -142,6 +143,15 @@ func c05Ctx() map[string]interface{} {
 	for i := range longAny {
 		longAny[i] = i
 	}
+	// more than 50 elements of a comparable static type, one of them not hashable at run time
+	lnamed := make(c05AnyList, 60)
+	var larr [60]interface{}
+	lstructs := make([]c05Row, 60)
+	lerrs := make([]error, 60)
+	for i := range lnamed {
+		lnamed[i], larr[i], lstructs[i], lerrs[i] = "t"+strconv.Itoa(i), i, c05Row{ID: i, Meta: i}, &c05Err{}
+	}
+	lnamed[7], larr[8], lstructs[9].Meta, lerrs[10] = []interface{}{"nested"}, map[string]int{"k": 1}, map[string]int{"k": 1}, c05SliceErr{"e"}
 	st := c05S{c05Emb: c05Emb{Name: "n", hidden: 1}, X: 7, P: &c05Inner{A: 1, b: "b"}, M: map[string]int{"k": 1}, L: []string{"l"}, y: 2}
 	return map[string]interface{}{
 		"mis": map[int]string{1: "a", 2: "b"}, "msi": map[string]int{"a": 1, "b": 2}, "mss": map[string]string{"a": "x"},
@@ -160,11 +170,21 @@ func c05Ctx() map[string]interface{} {
 		"mix": c05Mixed{name: "v"}, "pmix": &c05Mixed{name: "p"},
 		// maps whose key type is a named type (a plain string or int is convertible to it, not assignable)
 		"nmss": map[c05Str]string{"a": "x", "b": "y"}, "nmsa": map[c05Str]interface{}{"a": 1, "k": []int{1}},
+		"lnamed": lnamed, "larr": larr, "lstructs": lstructs, "lerrs": lerrs,
 		"nmis": map[c05Int]string{1: "one", 2: "two"}, "nmst": c05NamedMaps{T: map[c05Str]string{"a": "t"}, N: map[c05Int]int{0: 7}},
 	}
 }
 
 type c05Int int
+type c05AnyList []interface{}
+type c05Row struct {
+	ID   int
+	Meta interface{}
+}
+type c05SliceErr []string
+
+func (e c05SliceErr) Error() string { return "slice error" }
+
 type c05NamedMaps struct {
 	T map[c05Str]string
 	N map[c05Int]int
